@@ -20,7 +20,14 @@ class InnerSubscription(abc.DisposableBase):
 
     def dispose(self) -> None:
         with self.lock:
-            if not self.subject.is_disposed and self.observer:
-                if self.observer in self.subject.observers:
-                    self.subject.observers.remove(self.observer)
-                self.observer = None
+            observer, self.observer = self.observer, None
+
+        if observer is None:
+            return
+
+        # The observer list belongs to the subject and is only mutated under
+        # the subject's lock; checking and removing under another lock races
+        # with the subject clearing the list when it terminates.
+        with self.subject.lock:
+            if not self.subject.is_disposed and observer in self.subject.observers:
+                self.subject.observers.remove(observer)
